@@ -351,6 +351,11 @@ impl Prover {
             }
         }
 
+        // S has to be invertible modulo n: for S = 0 (or an S sharing a factor with n) the
+        // recomputed commitments below vanish whatever Z and the R_i are, so anybody could
+        // write an accepted proof for such a key
+        pr_pub_key.s.inverse(&pr_pub_key.n)?;
+
         let z_inverse = pr_pub_key.z.inverse(&pr_pub_key.n)?;
         let z_cap = get_pedersen_commitment(
             &z_inverse,
